@@ -3,7 +3,9 @@
    _handle_max_data_frame, _handle_max_stream_data_frame, _handle_max_streams_*_frame,
    _handle_stop_sending_frame, _unblock_streams, _parse_transport_parameters (the six flow-control
    parameters), the handshake-completion unblock, and the stream part of _write_application
-   (one call of _write_stream_frame / _write_reset_stream_frame per step) on top of the C10 sender.
+   (one call of _write_stream_frame / _write_reset_stream_frame / _write_stop_sending_frame per step; the loop
+   of the `fixes` branch: RESET_STREAM and STOP_SENDING are skipped while the stream is blocked by the
+   stream-count limit) on top of the C10 sender.
    No proofs in this file. *)
 From AQ Require Import lib.Base lib.Tok model.RangeSet model.StreamSend.
 
@@ -11,7 +13,8 @@ Record strm := mkStrm {
   t_id : Z;            (* stream_id *)
   t_blocked : bool;    (* QuicStream.is_blocked *)
   t_msdr : Z;          (* QuicStream.max_stream_data_remote *)
-  t_send : send        (* QuicStream.sender *)
+  t_send : send;       (* QuicStream.sender *)
+  t_stop : bool        (* QuicStream.receiver.stop_pending *)
 }.
 
 Record conn := mkConn {
@@ -35,6 +38,8 @@ Definition sid_client (sid : Z) : bool := Z.even sid.            (* not (stream_
 Definition sid_uni (sid : Z) : bool := Z.odd (sid / 2).          (* bool(stream_id & 2) *)
 Definition can_send (c : conn) (sid : Z) : bool :=
   Bool.eqb (sid_client sid) (c_client c) || negb (sid_uni sid).
+Definition can_receive (c : conn) (sid : Z) : bool :=
+  negb (Bool.eqb (sid_client sid) (c_client c)) || negb (sid_uni sid).
 
 Fixpoint find_strm (sid : Z) (l : list strm) : option strm :=
   match l with
@@ -48,9 +53,10 @@ Fixpoint upd_strm (sid : Z) (f : strm -> strm) (l : list strm) : list strm :=
   | t :: r => if t_id t =? sid then f t :: r else t :: upd_strm sid f r
   end.
 
-Definition set_send (s : send) (t : strm) : strm := mkStrm (t_id t) (t_blocked t) (t_msdr t) s.
-Definition set_msdr (m : Z) (t : strm) : strm := mkStrm (t_id t) (t_blocked t) m (t_send t).
-Definition unblocked (m : Z) (t : strm) : strm := mkStrm (t_id t) false m (t_send t).
+Definition set_send (s : send) (t : strm) : strm := mkStrm (t_id t) (t_blocked t) (t_msdr t) s (t_stop t).
+Definition set_stop (b : bool) (t : strm) : strm := mkStrm (t_id t) (t_blocked t) (t_msdr t) (t_send t) b.
+Definition set_msdr (m : Z) (t : strm) : strm := mkStrm (t_id t) (t_blocked t) m (t_send t) (t_stop t).
+Definition unblocked (m : Z) (t : strm) : strm := mkStrm (t_id t) false m (t_send t) (t_stop t).
 
 Definition with_streams (c : conn) (l : list strm) : conn :=
   mkConn (c_client c) (c_max_data c) (c_used c) (c_msd_bl c) (c_msd_br c) (c_msd_uni c)
@@ -66,6 +72,7 @@ Inductive fout :=
 | FGet (max_offset : Z) (o : sout)      (* _write_stream_frame: the max_offset computed, get_frame's result *)
 | FValueError                           (* ValueError from the public API *)
 | FQErr (code : Z)                      (* QuicConnectionError raised by a frame handler *)
+| FStop                                 (* a STOP_SENDING frame was written *)
 | FIneligible                           (* the stream loop of _write_application would not make this call *)
 | FNoStream.                            (* no such stream (the call cannot happen) *)
 
@@ -80,7 +87,7 @@ Definition for_send (c : conn) (sid : Z) : option (conn * strm) :=
       let msd := if uni then c_msd_uni c else c_msd_br c in
       let maxs := if uni then c_ms_uni c else c_ms_bidi c in
       let blocked := sid / 4 >=? maxs in
-      let t := mkStrm sid blocked msd (send_init true) in
+      let t := mkStrm sid blocked msd (send_init true) false in
       let c' := mkConn (c_client c) (c_max_data c) (c_used c) (c_msd_bl c) (c_msd_br c) (c_msd_uni c)
                   (c_ms_bidi c) (c_ms_uni c) (c_streams c ++ [t])
                   (if blocked && negb uni then c_blk_bidi c ++ [sid] else c_blk_bidi c)
@@ -100,7 +107,7 @@ Definition from_peer (c : conn) (sid : Z) : option (conn * strm) :=
       if Bool.eqb (sid_client sid) (c_client c) then None    (* "Wrong stream initiator" *)
       else
         let uni := sid_uni sid in
-        let t := mkStrm sid false (if uni then 0 else c_msd_bl c) (send_init (negb uni)) in
+        let t := mkStrm sid false (if uni then 0 else c_msd_bl c) (send_init (negb uni)) false in
         Some (with_streams c (c_streams c ++ [t]), t)
   end.
 
@@ -136,7 +143,10 @@ Inductive fop :=
 | OGetReset (sid : Z)                                 (* one _write_reset_stream_frame call *)
 | ODeliv (sid : Z) (acked : bool) (a b : Z) (fin : bool)   (* delivery outcome of a STREAM frame *)
 | OResetDeliv (sid : Z) (acked : bool)                (* delivery outcome of a RESET_STREAM frame *)
-| OPeerOpen (sid : Z).                                (* any other peer frame that creates the stream *)
+| OPeerOpen (sid : Z)                                 (* any other peer frame that creates the stream *)
+| OStop (sid : Z)                                     (* stop_stream *)
+| OGetStop (sid : Z)                                  (* one _write_stop_sending_frame call *)
+| OStopDeliv (sid : Z) (acked : bool).                (* delivery outcome of a STOP_SENDING frame *)
 
 Definition orz (o : option Z) (d : Z) : Z := match o with Some v => v | None => d end.
 
@@ -214,7 +224,7 @@ Definition fstep (c : conn) (op : fop) : fout * conn :=
       match find_strm sid (c_streams c) with
       | None => (FNoStream, c)
       | Some t =>
-          if negb (s_reset_pending (t_send t)) then (FIneligible, c) else
+          if negb (s_reset_pending (t_send t)) || t_blocked t then (FIneligible, c) else
           let '(o, s') := get_reset_frame (t_send t) in
           (FSender o, upd_send c sid s')
       end
@@ -233,6 +243,24 @@ Definition fstep (c : conn) (op : fop) : fout * conn :=
       | None => (FQErr STREAM_STATE_ERROR, c)
       | Some (c1, _) => (FOk, c1)
       end
+  | OStop sid =>
+      if negb (can_receive c sid) then (FValueError, c) else
+      match find_strm sid (c_streams c) with
+      | None => (FValueError, c)
+      | Some _ => (FOk, with_streams c (upd_strm sid (set_stop true) (c_streams c)))
+      end
+  | OGetStop sid =>
+      match find_strm sid (c_streams c) with
+      | None => (FNoStream, c)
+      | Some t =>
+          if negb (t_stop t) || t_blocked t then (FIneligible, c) else
+          (FStop, with_streams c (upd_strm sid (set_stop false) (c_streams c)))
+      end
+  | OStopDeliv sid k =>
+      match find_strm sid (c_streams c) with
+      | None => (FNoStream, c)
+      | Some _ => (FOk, if k then c else with_streams c (upd_strm sid (set_stop true) (c_streams c)))
+      end
   end.
 
 Definition frun (c : conn) (ops : list fop) : conn := fold_left (fun c op => snd (fstep c op)) ops c.
@@ -245,10 +273,11 @@ Definition frun (c : conn) (ops : list fop) : conn := fold_left (fun c op => snd
      8 sid max_size  _write_stream_frame         9 sid  _write_reset_stream_frame
      10 sid acked a b fin  STREAM delivery       11 sid acked  RESET_STREAM delivery    12 sid  peer opens
      13 n sid1..sidn   observe (not an operation)
+     14 sid  stop_stream      15 sid  _write_stop_sending_frame      16 sid acked  STOP_SENDING delivery
    output per op: outcome (0 ok | 1 sender-result.. | 2 max_offset sender-result.. | 3 ValueError |
-     4 code QuicConnectionError | 5 ineligible | 6 no stream);
+     4 code QuicConnectionError | 5 ineligible | 6 no stream | 7 STOP_SENDING written);
    per observe: used max_data max_streams_bidi max_streams_uni #blocked_bidi #blocked_uni, then per listed
-     stream (0 | 1 is_blocked max_stream_data_remote highest_offset buffer_is_empty reset_pending) *)
+     stream (0 | 1 is_blocked max_stream_data_remote highest_offset buffer_is_empty reset_pending stop_pending) *)
 Definition out_fout (o : fout) : list Z :=
   match o with
   | FOk => [0]
@@ -257,6 +286,7 @@ Definition out_fout (o : fout) : list Z :=
   | FValueError => [3]
   | FQErr code => [4; code]
   | FIneligible => [5]
+  | FStop => [7]
   | FNoStream => [6]
   end.
 
@@ -267,7 +297,7 @@ Definition obs_strm (c : conn) (sid : Z) : list Z :=
   match find_strm sid (c_streams c) with
   | None => [0]
   | Some t => [1; b2z (t_blocked t); t_msdr t; s_highest (t_send t); b2z (s_empty (t_send t));
-               b2z (s_reset_pending (t_send t))]
+               b2z (s_reset_pending (t_send t)); b2z (t_stop t)]
   end.
 
 Definition parse_op (ops : list Z) : option (fop * list Z) :=
@@ -288,6 +318,9 @@ Definition parse_op (ops : list Z) : option (fop * list Z) :=
   | 10 :: sid :: k :: a :: b :: f :: t => Some (ODeliv sid (z2b k) a b (z2b f), t)
   | 11 :: sid :: k :: t => Some (OResetDeliv sid (z2b k), t)
   | 12 :: sid :: t => Some (OPeerOpen sid, t)
+  | 14 :: sid :: t => Some (OStop sid, t)
+  | 15 :: sid :: t => Some (OGetStop sid, t)
+  | 16 :: sid :: k :: t => Some (OStopDeliv sid (z2b k), t)
   | _ => None
   end.
 
